@@ -82,6 +82,12 @@ def gen_scenario(seed, idx):
         for name in r.sample(["keep_glyph_names", "clip_to_viewbox", "version_major", "upem", "pretty_print"], 2):
             vals = [v for v in gen.OPTION_VALUES[name] if v != opts.get(name)]
             o2[name] = r.choice(vals)
+        if fmt in gen.BITMAP and r.random() < 0.6:
+            # the two configurations want different pixels from the same sources.  Which one gets them is decided by the
+            # order of the configuration files (KF-C20-bitmap-intermediates-shared), so that order is kept fixed here;
+            # everything else - hash seed, schedule, locations - must still not matter
+            o2["bitmap_resolution"] = 48 if opts.get("bitmap_resolution") != 48 else 24
+            sc["fixed_config_order"] = True
         sc["opts2"] = o2
         paths = sorted(srcs)
         sc["srcs2"] = sorted(r.sample(paths, max(1, len(paths) - r.choice([0, 1]))))
@@ -164,7 +170,7 @@ def build_job(seed, idx, sc, vi, var):
         for name, o, paths in cfgs:
             ops.append({"op": "write", "path": proj + "/" + name, "content": "text:" + gen.toml_config(o, srcs_for(paths))})
         order = [name for name, _, _ in cfgs]
-        if var["argv_perm"] and len(order) > 1 and r.random() < 0.5:
+        if var["argv_perm"] and len(order) > 1 and r.random() < 0.5 and not sc.get("fixed_config_order"):
             order.reverse()  # the order of configuration files is an order of command-line arguments too
         argv += [ref_path(name) for name in order]
     sched = {"j": 1, "policy": "manifest", "seed": 0, "exec_at": "finish"} if vi == 0 else var["sched"]
